@@ -123,6 +123,19 @@ flat = P.build(d, 'flat')
 for fn, real, tier, kw in contracts:
     P.contract(fn, real, tier=tier, **kw)
 
+# ---------------------------------------------------------------------------------------------------------------------------
+# MODULAR route: findLSB is implemented as bitCount(~v & (v - 1)).  In the -O1 -fno-inline extraction glm::bitCount<T> survives as
+# its own function; it gets its own (enforced) contract and findLSB is verified against that CONTRACT, not the ladder's body.
+mod = P.build(d, 'modular', tag='c05_modular')
+for tag, code in (('i32', 'i'), ('u32', 'j'), ('i64', 'l'), ('u64', 'm')):
+    cpp, n, sg = INT_TYPES[tag]
+    BC = '_ZN3glm8bitCountI%sEEiT_' % code
+    P.contract(BC, 'glm::bitCount<%s>(%s)  %s  [modular, kernel]' % (cpp, cpp, F), build=mod, unwind=65,
+               sig={'ret': 'u32', 'ins': [('u%d' % n, 'v')], 'outs': [], 'ir': BC}, assigns=[],
+               ensures=[('is_popcount', '(s32)RESULT == spec_popcount(v, %d)' % n)])
+    P.contract('glm_findLSB_%s_s' % tag, 'glm::findLSB<%s>  %s  [modular: bitCount replaced by its contract]' % (cpp, F), build=mod, unwind=65,
+               replace=[BC], ensures=[('glsl_value', '(s32)RESULT == spec_lsb_index(x, %d)' % n)])
+
 P.level_text = ('each GLSL integer function instantiation (8..64 bit, signed/unsigned, scalar and vec1..4) is proved equal to a '
                 'bit-by-bit specification for every argument value in the GLSL domain; symbolic arguments = all 2^N inputs')
 P.level_note = 'trusted: clang-14 lowering, ll2c (T-checked), CBMC bit-vector semantics, spec_int.h written from the GLSL 4.20 text quoted in glm/integer.hpp'
